@@ -292,11 +292,21 @@ def cmd_exec(prop: str, path: str) -> int:
 
 
 def hashseed_for(mod, shard: int) -> str:
-    return str(shard + 1) if getattr(mod, "HASHSEED_VARIES", False) else "0"
+    """The process-level environment of a shard, as one string recorded in replay files: the PYTHONHASHSEED, and for
+    properties that read or write text files (LOCALE_VARIES) the tag `:ascii` on three of the sixteen shards, which
+    are started in a non-UTF-8 locale (LC_ALL=C with UTF-8 mode and locale coercion off - what `open()` without an
+    explicit encoding sees on a system whose code page is not UTF-8)."""
+    hs = str(shard + 1) if getattr(mod, "HASHSEED_VARIES", False) else "0"
+    if getattr(mod, "LOCALE_VARIES", False) and shard % 16 >= 13:
+        hs += ":ascii"
+    return hs
 
 
 def spawn(args: list[str], hashseed: str, timeout_s: int, **kw) -> subprocess.Popen:
     env = dict(os.environ)
+    hashseed, _, loc = str(hashseed).partition(":")
+    if loc == "ascii":
+        env.update(LC_ALL="C", LANG="C", PYTHONUTF8="0", PYTHONCOERCECLOCALE="0")
     env["PYTHONHASHSEED"] = hashseed
     env["PYTHONDONTWRITEBYTECODE"] = "1"
     env.setdefault("OMP_NUM_THREADS", "1")
